@@ -100,10 +100,15 @@ static _Bool hist_step(int thread) {
 }
 /* a client thread sleeps: client thread 2 issues the next operation (a sleeping thread does not stop the others) */
 static _Bool hist_other_client_step(void) { if (hist_pos >= NOPS) return 0; int me = ir_cur; _Bool r = hist_step(2); ir_cur = me; return r; }
+static _Bool mk_top;
 static u64 mkqueue(_Bool conc, _Bool inact, u64 target) {
   /* attribute = &_dispatch_queue_attrs[idx]; idx = (!concurrent) * 2 ... + inactive (see _dispatch_queue_attr_to_info); only address arithmetic is done on the table */
   u64 idx = (conc ? 0 : 1) * 2 + (inact ? 1 : 0);
-  u64 attr = (conc || inact) ? IR_NOGLOBAL + idx * P_SZ_attr : 0;
+#ifdef QOSATTR
+  /* a client-chosen QoS class on the top queue: index = (((overcommit*AF + autorelease)*QOS_COUNT + qos)*PRIO_COUNT + (-relpri))*2 + !concurrent)*2 + inactive */
+  if (target != 0 || mk_top) idx += (u64)QOSATTR * P_ATTR_PRIO_COUNT * 4;
+#endif
+  u64 attr = (conc || inact || idx > 3) ? IR_NOGLOBAL + idx * P_SZ_attr : 0;
   return target ? dispatch_queue_create_with_target(0, attr, target) : dispatch_queue_create(0, attr);
 }
 void harness(void) {
@@ -119,9 +124,9 @@ void harness(void) {
 #if defined(CHAIN) || defined(FANIN)
   Q[1] = mkqueue(0, 0, 0); q_conc[1] = 0; nq = 2;           /* the serial bottom queue */
 #ifdef SETTARGET
-  Q[0] = mkqueue(conc0, 1, 0); dispatch_set_target_queue(Q[0], Q[1]); if (!inact0) dispatch_activate(Q[0]);   /* retarget while inactive, then activate */
+  mk_top = 1; Q[0] = mkqueue(conc0, 1, 0); mk_top = 0; dispatch_set_target_queue(Q[0], Q[1]); if (!inact0) dispatch_activate(Q[0]);   /* retarget while inactive, then activate */
 #else
-  Q[0] = mkqueue(conc0, inact0, Q[1]);
+  mk_top = 1; Q[0] = mkqueue(conc0, inact0, Q[1]); mk_top = 0;
 #endif
 #ifdef FANIN
   Q[2] = mkqueue(0, 0, Q[1]); q_conc[2] = 0; nq = 3;
